@@ -37,6 +37,10 @@ class MemoryAccess:
         :param data: Data of the PDU
         """
         if pgn == j1939.ParameterGroupNumber.PGN.DM14:
+            if ((data[1] - 1) & 0x0F) >> 1 == j1939.Command.OPERATION_COMPLETED.value:
+                # the closing message of a transaction is handled by the server object itself (it subscribes for
+                # it before it announces the completion): it is neither a new request nor one to be refused as busy
+                return
             match self.state:
                 case DMState.IDLE:
                     if self.server.state.value == DMState.IDLE.value:
